@@ -6,6 +6,9 @@ CLAIMED = {
  "C01": ("SPEC differential", "4", "generated (path AST, document) pairs; library result compared with the independent SPEC interpreter: exact sequence/multiplicity/order, error iff SPEC selects nothing"),
  "C02": ("validity predicate over generated/mutated/enumerated strings", "4", "about 1e6 generated strings per quick run (grammar-derived, mutated, token soup, Unicode, invalid UTF-8, boundary integers) plus the completely enumerated reduced grammar, under 4 configs: Parse returns exactly one of (function, nil) / (nil, documented syntax-check error), never panics, dies or hangs"),
  "C03": ("validity predicate + SPEC cross-check over generated (path, document) pairs", "4", "every accepted path of the C02 generators evaluated on generated documents (directed, free, empty, null/scalar roots; both decodings; failing user functions): result is (non-empty, nil) or (nil, documented runtime error), ErrorFunctionFailed only after a user function failed, and 'SPEC selects nothing' <=> error"),
+ "C08": ("metamorphic relation over three retrievals (split composition)", "4", "every admissible split of every generated path: Retrieve(P.Q,d) equals the in-order concatenation of Retrieve($.Q,v) over Retrieve(P,d); union/multi decomposition and '..X' pre-order expansion checked at the split"),
+ "C09": ("metamorphic Boolean-algebra laws over selection index sets", "4", "at every node of generated filter expressions (depth 3) over containers of 0..6 distinct members: and=intersection, or=union, parentheses neutral, !=complement, != vs ==, mirror laws for six operators, <=/>= = strict u equal; container order"),
+ "C10": ("SPEC differential + metamorphic (decode mode, operand order)", "4", "single-comparison filters over members of every JSON type: per-member agreement with SPEC, identical selection with and without UseNumber, identical selection after swapping operands and mirroring the operator"),
  "C11": ("exhaustive small scope + random boundary search against a CPython-pinned slice model", "4", "all start/end/step in {omitted} U [-7..7] x lengths 0..6 enumerated completely, plus the boundary-magnitude cross product and random int64 triples up to length 40, compared with Python slice semantics"),
  "C12": ("relational (mode parity) over generated cases with recording functions", "4", "each generated (path, document) evaluated with and without accessor mode: same length, Get() deep-equals the plain value, same error, identical function call logs, never an Accessor inside a function argument"),
  "C13": ("SPEC location model + stateful history against a shadow document", "4", "for every accessor of every generated result: Set on a fresh copy, then document diff against the original with exactly SPEC's predicted location replaced, Get liveness before/after; drawn Set/direct-update histories checked against a shadow copy; Set == nil exactly for non-locations"),
